@@ -26,7 +26,8 @@ def check(prop, tier):
     every = "20" if q else "2"
     reps = "5" if q else "50"
     free = "5" if q else "100"
-    r, stats = comp.emit_replay(v, "InstancesScn", "Instances_base.cfg", "instances", 1500 if q else 3400, invariants=INV + ["Emit"],
+    ov = None if q else {"WantSets": '{{}, {"p0"}, {"rp"}, {"p0", "rp"}}'}
+    r, stats = comp.emit_replay(v, "InstancesScn", "Instances_base.cfg", "instances", 1500 if q else 3400, invariants=INV + ["Emit"], overrides=ov,
                                 sub_args=["-every", every, "-reps", reps, "-free", free], own_comps=OWN[prop], replay_key="vector",
                                 replay_hint="bin/check %s %s (the schedule is in the vector; instances = goroutines gated at JUMPDEST)" % (prop, tier))
     v.notes["replay"] = {"behaviours_replayed": r["histories"], "every": int(every), "solo_repetitions_per_config": int(reps), "free_running_rounds": int(free),
@@ -44,7 +45,7 @@ def check(prop, tier):
         finally:
             shutil.rmtree(d, ignore_errors=True)
     v.cov["exhaustive"] = False
-    v.cov["rule"] = ("Instances.tla is model-checked exhaustively for 2 instances x 2 loop iterations x extra-EIP sets {none, {3855}} x 2 transactions x Cancel at any point "
+    v.cov["rule"] = ("Instances.tla is model-checked exhaustively for 2 instances x 2 loop iterations x extra-EIP sets over {3855 (adds an opcode), 1884 (reprices opcodes in place, pre-Istanbul fork)} x 2 transactions x Cancel at any point "
                      "(safety invariants; CancelLive under weak fairness); every %s-th complete interleaving is replayed on real EVMs in gated goroutines and each instance's full "
                      "observable outcome (result, gas, state root, logs, call tree, every journal query in returned order) must equal its solo outcome; every configuration "
                      "runs alone %s times on equal pre-states (byte-identical digests required); %s free-running rounds of 8 concurrent instances; "
